@@ -49,6 +49,10 @@ type hubRun struct {
 	panics   []string
 	viol     [][2]string
 	wedged   string // operation that never came back: the hub is deadlocked
+	// messages put into each connection's channel so far (from the routing state right
+	// before each send): settle waits until the writers have taken every one of them
+	// out of the channel AND entered the send callback, instead of guessing from timing
+	delivered map[int]int
 }
 
 const hubOpTimeout = 30 * time.Second
@@ -125,10 +129,21 @@ func (r *hubRun) settle() {
 		stable := true
 		r.mu.Lock()
 		for _, c := range r.conns {
-			if !c.added || c.holding {
+			if !c.added {
 				continue
 			}
-			if n := r.hub.VerifChanLen(sname(c.sess), cname(c.id)); n > 0 {
+			n := r.hub.VerifChanLen(sname(c.sess), cname(c.id))
+			if n < 0 {
+				n = 0
+			}
+			// parked at its (closed, token-less) gate with a message in hand: stable.
+			// Holding while the gate is open or a permit is pending is a transient state.
+			if c.holding && !c.open && len(c.gate) == 0 {
+				continue
+			}
+			// otherwise the writer must have taken everything that was put into its
+			// channel and be back waiting on the (empty) channel
+			if c.holding || n > 0 || len(c.taken)+n < r.delivered[c.id] {
 				stable = false
 			}
 		}
@@ -293,6 +308,12 @@ func (r *hubRun) broadcast(sess int, except int, from int) {
 		}
 	}
 	sort.Ints(todo)
+	full := map[int]bool{}
+	for _, c := range todo {
+		if r.hub.VerifChanLen(sname(sess), cname(c)) >= 256 {
+			full[c] = true
+		}
+	}
 	ex := "None"
 	name := fmt.Sprintf("broadcast(%s,m%d)", sname(sess), r.nextMsg)
 	func() {
@@ -309,6 +330,14 @@ func (r *hubRun) broadcast(sess int, except int, from int) {
 			r.hub.Broadcast(sname(sess), env)
 		}
 	}()
+	r.mu.Lock()
+	for _, c := range todo {
+		if full[c] {
+			continue // a full channel drops the message
+		}
+		r.delivered[c]++
+	}
+	r.mu.Unlock()
 	r.record(fmt.Sprintf("Hub.Bcast %d %s %d", sess, ex, r.nextMsg), fmt.Sprintf("Hub.OList %s", natList(todo)), name)
 	r.settle()
 }
@@ -316,6 +345,7 @@ func (r *hubRun) broadcast(sess int, except int, from int) {
 func (r *hubRun) sendTo(sess, peer, from int) {
 	env := r.newMsg(sess, from)
 	ok := false
+	target := r.hub.VerifState().ByPeer[sname(sess)][pname(peer)]
 	func() {
 		defer func() {
 			if p := recover(); p != nil {
@@ -324,6 +354,11 @@ func (r *hubRun) sendTo(sess, peer, from int) {
 		}()
 		ok = r.hub.SendTo(sname(sess), pname(peer), env)
 	}()
+	if ok && target != "" {
+		r.mu.Lock()
+		r.delivered[cnum(target)]++
+		r.mu.Unlock()
+	}
 	r.record(fmt.Sprintf("Hub.SendTo %d %d %d", sess, peer, r.nextMsg), fmt.Sprintf("Hub.OBool %s", hx.B(ok)), fmt.Sprintf("sendto(%s,%s,m%d)=%v", sname(sess), pname(peer), r.nextMsg, ok))
 	r.settle()
 }
